@@ -228,6 +228,9 @@ func parse_set_matches(tokens []*Token, token_index int) (AstSetBody, int, error
 	if err != nil {
 		return nil, next_index, err
 	}
+	if command == nil {
+		return nil, next_index, NewParseError(tokens[next_index], "Unexpected token. Expected 'find', 'replace', or 'set' after 'matches'.")
+	}
 	return &AstSetMatches{command}, next_index, err
 }
 
@@ -364,7 +367,7 @@ func parse_at(tokens []*Token, token_index int) (*AstLoop, int, error) {
 			loopName = nameToken.Lexeme
 			current_index += 1
 		} else {
-			return nil, current_index, parseError
+			return nil, current_index, NewParseError(nameToken, "Expected identifier following keyword 'named'")
 		}
 	}
 
@@ -483,7 +486,7 @@ func parse_exactly(tokens []*Token, token_index int) (*AstLoop, int, error) {
 			loopName = nameToken.Lexeme
 			current_index += 1
 		} else {
-			return nil, current_index, parseError
+			return nil, current_index, NewParseError(nameToken, "Expected identifier following keyword 'named'")
 		}
 	}
 
